@@ -98,6 +98,7 @@ def run(S):
     S.no_panic('C17.a.nopanic', E, [], 'the acceptance closures are total (no overflow in capacity*1000 for any u64 capacity)', [b])
     S.witness('C17.a.witness', E, pre + [addressed_has, cap_some], ok)
     node_announcements(S, D)
+    pruning_step(S, D)
 
 
 def node_announcements(S, D):
@@ -131,3 +132,92 @@ def node_announcements(S, D):
             [b], bounds='all u32 timestamps; map lookup and stored info abstracted')
     S.no_panic('C17.b.nopanic', E, [], 'total', [b])
     S.witness('C17.b.witness', E, [has_info], ok)
+
+
+STALE_LIMIT = 60 * 60 * 24 * 14
+
+
+def pruning_step(S, D):
+    """C17.c: one iteration of the per-channel loop of remove_stale_channels_and_tracking_with_time, from an
+    arbitrary loop-head state (any channel of a graph of any size): each direction is judged by its OWN
+    timestamp, a direction that is current is kept, and the channel is scheduled for removal iff a direction is
+    missing afterwards and the announcement itself is older than the limit."""
+    if all(S._skip(o) for o in ('C17.c.directions', 'C17.c.removal', 'C17.c.nopanic', 'C17.c.witness', 'C17.c.validate')):
+        return
+    E = S.engine(unwind=1)
+    mem = {}
+    f = S.fn('remove_stale_channels_and_tracking_with_time')
+    run = X.FnRun(E, f, [X.Ref(E.new_cell()), E.sym('now', 'u64')], True, mem)
+    succ, rpo, back, encl = run.analyse_cfg()
+    heads = sorted({h for (u, h) in back})
+    head = None
+    for h in heads:
+        term = f.blocks[h][1]
+        if term[0] == 'call' and 'IterMut' in str(term[2]) and 'Iterator>::next' in str(term[2]):
+            head = h
+    if head is None:
+        raise X.Unsupported('per-channel loop of remove_stale_channels_and_tracking_with_time not found')
+    min_time = E.sym('min_time_unix', 'u32')
+    info = E.sym('info', 'routing::gossip::ChannelInfo', mem)
+    ci = E.new_cell()
+    mem[ci] = info
+    cs = E.new_cell()
+    mem[cs] = E.sym('scid', 'u64')
+    inserted = []
+
+    def h_next(E_, m, func, argv, guard, mem_, dest_ty, caller):
+        return X.En('Option', 1, {1: [X.Tup([X.Ref(cs), X.Ref(ci)])]})
+
+    def h_insert(E_, m, func, argv, guard, mem_, dest_ty, caller):
+        inserted.append(X.zbool(guard))
+        return X.B(z3.Bool('env.set_insert_new'))
+    E.models.insert(0, (re.compile(r'IterMut<.*> as Iterator>::next$'), h_next))
+    E.models.insert(0, (re.compile(r'HashSet::<u64.*>::insert$'), h_insert))
+    i12 = D.field_index('ChannelInfo', 'one_to_two')
+    i21 = D.field_index('ChannelInfo', 'two_to_one')
+    iann = D.field_index('ChannelInfo', 'announcement_received_time')
+    ilu = D.field_index('ChannelUpdateInfo', 'last_update')
+    OT = 'std::option::Option<routing::gossip::ChannelUpdateInfo>'
+
+    def direction(val, idx):
+        o = E.read_path(val, (('f', idx, OT),), mem, True, 'spec')
+        some = X.zint(o.d) == 1
+        lu = E.read_path(o, (('v', 'Some'), ('f', 0, 'ChannelUpdateInfo'), ('f', ilu, 'u32')), mem, True, 'spec').t
+        return some, lu
+    pre12, t12 = direction(info, i12)
+    pre21, t21 = direction(info, i21)
+    ann = E.read_path(info, (('f', iann, 'u64'),), mem, True, 'spec').t
+    loc = lambda name: int(f.debug[name].lstrip('_'))
+    init = {loc('min_time_unix'): min_time, loc('scids_to_remove'): X.Opaque('scids_to_remove'), loc('iter'): X.Opaque('iter'),
+            loc('channels'): X.Opaque('channels guard')}
+    # the prefix of the function returns early unless LIMIT <= now <= u32::MAX, so min_time = now - LIMIT
+    E.assume(min_time.t <= (1 << 32) - 1 - STALE_LIMIT)
+    E.depth += 1
+    rv, ret, m2 = run.run(start_bb=head, init=init)
+    E.depth -= 1
+    if not run.cut_states:
+        raise X.Unsupported('the loop body never returns to the loop head')
+    cg, cm = E.merge_mem(run.cut_states)
+    cg = X.zbool(cg)
+    post = cm[ci]
+    mem.update(cm)
+    post12, _ = direction(post, i12)
+    post21, _ = direction(post, i21)
+    removal = z3.Or(*inserted) if inserted else z3.BoolVal(False)
+    panic = z3.Or(*[X.zbool(p[0]) for p in E.panics]) if E.panics else False
+
+    def line_fn(v):
+        h12, a12, h21, a21, an, mt = v
+        return ' '.join(str(x) for x in [h12, a12, h21, a21, an, mt + STALE_LIMIT])
+    b = Binding('prune_probe', [z3.If(pre12, 1, 0), z3.If(pre12, t12, 0), z3.If(pre21, 1, 0), z3.If(pre21, t21, 0), ann, min_time.t],
+                [z3.If(removal, 0, 1), z3.If(z3.And(z3.Not(removal), post12), 1, 0), z3.If(z3.And(z3.Not(removal), post21), 1, 0)],
+                panic=panic, line_fn=line_fn, which='oracle_tu',
+                domain=[(0, 1), (0, (1 << 32) - 1), (0, 1), (0, (1 << 32) - 1), (0, (1 << 33)), (0, (1 << 32) - 1 - STALE_LIMIT)])
+    S.prove('C17.c.directions', E, [], z3.Implies(cg, z3.And(post12 == z3.And(pre12, t12 >= min_time.t), post21 == z3.And(pre21, t21 >= min_time.t))),
+            'pruning judges each direction by its own last update: a directional update is dropped iff its timestamp is older than the two-week limit; the other direction is untouched',
+            [b], bounds='one iteration of the per-channel loop from an arbitrary loop-head state (a graph of any size), all u32 timestamps, all u64 announcement times')
+    S.prove('C17.c.removal', E, [], z3.Implies(cg, removal == z3.And(z3.Or(z3.Not(post12), z3.Not(post21)), ann < min_time.t)),
+            'the channel itself is scheduled for removal iff a direction is missing after that and the announcement was received before the limit (a recently announced channel waiting for its first updates is kept)', [b])
+    S.no_panic('C17.c.nopanic', E, [], 'the loop body is total', [b])
+    S.witness('C17.c.witness', E, [], z3.And(cg, pre12, pre21, z3.Not(post12), post21, z3.Not(removal)))
+    S.validate('C17.c.validate', E, b, n=60 if S.tier == 'quick' else 300)
